@@ -23,11 +23,19 @@ def _lookup_form(ctx, f, table_field, key_param, default_names, rule, what):
         return self.T.get(k, <default>)
     A falsy-sensitive form (`self.T.get(k) or d`, `self.T[k] or d`) is rejected:
     a specific cost of 0 would be replaced by the default."""
-    rets = [r for r in walk_no_nested(f.node) if isinstance(r, ast.Return) and r.value is not None]
+    rets0 = [r for r in walk_no_nested(f.node) if isinstance(r, ast.Return) and r.value is not None]
     ff = FuncFacts(f.node)
+    # single-exit form: `x = <outcome>` on each branch and one final `return x`: every assignment of x is an outcome
+    outs = []
+    for r in rets0:
+        if isinstance(r.value, ast.Name):
+            asg = [a for a in walk_no_nested(f.node) if isinstance(a, ast.Assign) and len(a.targets) == 1 and isinstance(a.targets[0], ast.Name) and a.targets[0].id == r.value.id]
+            if asg:
+                outs += [(a, a.value) for a in asg]
+                continue
+        outs.append((r, r.value))
     specific, default = [], []
-    for r in rets:
-        v = r.value
+    for r, v in outs:
         if isinstance(v, ast.BoolOp) or isinstance(v, ast.IfExp) and not _ifexp_ok(v, table_field, key_param):
             ctx.bad(rule, f"{what}: truthiness fallback", f, r,
                     "the specific value must be returned whenever the key is present, even when it is 0 / falsy")
